@@ -400,6 +400,11 @@ def gen_valuation(r, codec, m):
         else:
             set_path(val, path, var_value(r, typ, tmpl))
     if target is not None and not r.maybe(0.06):
+        tv = {p for (p, _t, _s) in m["bindings"][target]["vars"]}
+        for b in m["bindings"][:target]:             # make the earlier bindings inapplicable where that is possible
+            others = [p for (p, _t, _s) in b["vars"] if p not in tv]
+            if others and r.maybe(0.85):
+                del_path(val, r.pick(others))
         for (path, typ, tmpl) in m["bindings"][target]["vars"]:
             set_path(val, path, var_value(r, typ, tmpl))
     val = prune(desc, codec.normal(in_full(m), val))
@@ -835,7 +840,7 @@ def oracle_call(ctx, codec, spec, m, plan, res, label):
     return k
 
 
-def run_api(ctx, r, spec, label, ncalls=None, model=True):
+def run_api(ctx, r, spec, label, ncalls=None, model=True, plans=None):
     load_reserved()
     files = build_files(spec)
     req = apigen.request(files, params_of(spec))
@@ -851,7 +856,10 @@ def run_api(ctx, r, spec, label, ncalls=None, model=True):
         return
     root = genrun.materialise(res)
     try:
-        plans = plan_calls(ctx, r, codec, spec, ncalls or ctx.n(4, 6))
+        if plans is None:
+            plans = plan_calls(ctx, r, codec, spec, ncalls or ctx.n(4, 6))
+            if model:
+                t2_transcode(ctx, r, spec, codec, ctx.n(3, 6))
         calls = []
         for p in plans:
             m = next(x for x in spec["methods"] if x["name"] == p["method"])
@@ -1163,3 +1171,138 @@ def t3_compare(ctx, spec, codec, m, p, res, mo):
     want_b = None if mo["body"] is None else sorted(map(jdump, mo["body"]))
     if got_b != want_b:
         ctx.disagree("T3:c04.body", f"{m['name']}: model {want_b} vs impl {got_b}", payload)
+
+# --------------------------------------------------------------------------------------------- corpus, sweep, entry points
+
+import os
+CORPUS = os.path.join(os.path.dirname(os.path.dirname(os.path.dirname(os.path.abspath(__file__)))), "corpus", "C04")
+
+
+def run_corpus(ctx):
+    """minimised past failures first, on every run (DESIGN §3.1): each must still fail with its recorded key"""
+    r = ctx.rng("corpus")
+    stale = []
+    for fn in sorted(os.listdir(CORPUS)) if os.path.isdir(CORPUS) else []:
+        if not fn.endswith(".json"):
+            continue
+        with open(os.path.join(CORPUS, fn)) as fh:
+            blob = json.load(fh)
+        before = len(ctx.failures)
+        pl = blob["payload"]
+        run_api(ctx, r, pl["spec"], "corpus:" + fn, plans=[pl["plan"]])
+        keys = {f["key"] for f in ctx.failures[before:]}
+        ctx.count("corpus", fn + (":reproduced" if blob["key"] in keys else ":NOT-reproduced"))
+        if blob["key"] not in keys:
+            stale.append(fn)
+    if stale:
+        ctx.notes["corpus_entries_not_reproduced"] = stale
+
+
+def sweep_spec(words, numeric):
+    """every reserved word as path variable, as body field, as (required) query field"""
+    methods = []
+    for i, w in enumerate(words):
+        methods.append({"name": f"PathWord{i}", "kind": "http", "out": "Book",
+                        "fields": [{"name": w, "type": "string"}, {"name": "q", "type": "string"}],
+                        "bindings": [{"verb": "get", "uri": "/v1/{" + w + "=things/*}", "body": None, "vars": [[w, "string", "things/*"]]}]})
+        methods.append({"name": f"BodyWord{i}", "kind": "http", "out": "Empty",
+                        "fields": [{"name": "id", "type": "string"}, {"name": w, "type": "message", "type_name": "Book"}, {"name": "note", "type": "string"}],
+                        "bindings": [{"verb": "post", "uri": "/v1/things/{id}", "body": w, "vars": [["id", "string", None]]}]})
+        methods.append({"name": f"QueryWord{i}", "kind": "http", "out": "Book",
+                        "fields": [{"name": "id", "type": "string"}, {"name": w, "type": "int32", "required": True}],
+                        "bindings": [{"verb": "get", "uri": "/v1/things/{id}", "body": None, "vars": [["id", "string", None]]}]})
+    return {"numeric": numeric, "transport": "rest", "methods": methods}
+
+
+def sweep(ctx, words, label):
+    r = ctx.rng("sweep", label)
+    spec = sweep_spec(words, r.maybe())
+    codec = rpc.Codec(build_files(spec))
+    plans = []
+    for i, w in enumerate(words):
+        book = rpc.rand_msg(r, codec, f"{PKG}.Book", p_set=0.4)
+        for (name, reqs) in ((f"PathWord{i}", [{w: "things/" + r.pick(SEGS), "q": "x y"}]),
+                             (f"BodyWord{i}", [{"id": r.pick(SEGS), w: {"title": "t", "pages": 3}, "note": "n"}]),
+                             (f"QueryWord{i}", [{"id": r.pick(SEGS)}, {"id": r.pick(SEGS), w: 5}])):
+            m = next(x for x in spec["methods"] if x["name"] == name)
+            for rq in reqs:
+                reply = {} if m["out"] == "Empty" else book
+                plans.append({"method": name, "request": codec.normal(in_full(m), rq), "reply": reply,
+                              "reply_json": to_reply_json(r, codec, out_full(m), reply, spec["numeric"]), "mode": "request-instance"})
+    for w in words:
+        ctx.count("reserved_words_swept", w)
+    run_api(ctx, r, spec, "sweep:" + label, plans=plans)
+
+
+def run(ctx):
+    ctx.rule = ("one API = 6 methods with 1..3 http bindings (five verbs, `*`/field/absent body, top-level, nested and reserved-name "
+                "path variables with and without sub-templates, `:verb` suffixes, required fields of every scalar kind, enums, repeated "
+                "scalars, nested messages, well-known types, proto3-optional, oneof, maps/repeated messages for bodies) + a method without "
+                "usable binding, x rest-numeric-enums {off,on} x transport {rest, grpc+rest} x 4..6 random valuations per method "
+                "(path values needing percent-encoding) and scripted JSON replies; a case is distinct by (bindings, request, numeric); "
+                "non-trivial = non-empty request or a method without binding")
+    ctx.assume("path-variable values contain no `?`, `#`, `%` and no `/` inside a single-segment variable: api-core substitutes them "
+               "unencoded (URL-encoding of api-core/requests is outside the property, DESIGN 7.4)")
+    ctx.assume("path variables are singular string/int32/int64 fields; body fields are singular message fields (google.api.http's own rule)")
+    ctx.assume("fields left to the query string are scalar, repeated scalar, or non-repeated message without map/repeated-message/Struct "
+               "members (google.api.http's own rule; flatten_query_params raises otherwise); set-but-empty sub-messages are not generated")
+    ctx.assume("a required ENUM field is not a 'required scalar field': the template deliberately writes {} for it (nothing is sent)")
+    ctx.assume("field names are lower snake_case (style guide); for names with capitals to_camel_case differs from the JSON name")
+    ctx.assume("reserved words are not used in NESTED path variables ({book.class=…} makes client.py unparsable: C12, DESIGN 9-F1)")
+    ctx.assume("LRO, server-streaming framing and custom verbs with usable additional bindings are not exercised (C08 / not covered)")
+    load_reserved()
+    run_corpus(ctx)
+    t2_functions(ctx, ctx.rng("functions"), ctx.n(300, 4000))
+    words = sorted(RESERVED)
+    rs = ctx.rng("sweepwords")
+    if ctx.quick:
+        sweep(ctx, rs.sample(words, 6), "quick")
+    else:
+        for k in range(0, len(words), 10):
+            sweep(ctx, words[k:k + 10], f"w{k}")
+    r = ctx.rng("apis")
+    for a in range(ctx.n(18, 330)):
+        run_api(ctx, r, gen_api(r, a), f"api{a}")
+
+
+def search(ctx):
+    r = ctx.rng("search")
+    for a in range(40):
+        run_api(ctx, r, gen_api(r, a), f"search{a}", ncalls=6)
+
+
+def replay(ctx, payload):
+    import leanio
+    ctx.driver = leanio.Driver()
+    load_reserved()
+    if "spec" not in payload:
+        print("  (function-level payload; nothing to replay against the emitted library)", payload)
+        return True
+    plans = [payload["plan"]] if "plan" in payload else None
+    run_api(ctx, ctx.rng("replay"), payload["spec"], "replay", plans=plans)
+    for f in ctx.failures:
+        print("  failure:", f["key"], "-", f["what"][:400])
+    for d in ctx.disagreements:
+        print("  disagreement:", d["correspondence"], "-", d["what"][:400])
+    return not ctx.failures
+
+
+CLAIM = dict(
+    text=("Lean 4 proofs about an executable model of the generator's http-rule handling (try_parse_http_rule, convert_uri_fieldnames, "
+          "http_options, path_params, query_params, required-field defaults) and of the emitted REST call over an abstract transcoder with a "
+          "stated specification: reserved-name rewriting of URI templates only renames variables and is invertible; a reference transcoder "
+          "meets the specification; for every successful call the set fields of the request are partitioned into path, body and query "
+          "(nothing lost, nothing twice), verb and path instantiate a declared binding, every required field the generator leaves to the "
+          "query is present under its JSON name (camel_case = ToJsonName on lower snake_case), added defaults belong to unbound fields whenever "
+          "the generator's query_params table agrees with the binding used (proved for the primary binding under an explicit template-reading "
+          "hypothesis), `$alt` is sent iff numeric enums are on, and exactly the methods without usable binding (or client-streaming) raise "
+          "NotImplementedError; counterexample theorems for the five ways the real code violates the statement. Tie: T1 bridge for RESERVED_NAMES; "
+          "T2 the real schema functions, uri_conv, to_camel_case, protobuf ToJsonName and google.api_core.path_template.transcode vs the model; "
+          "T3 the emitted REST transport against a loopback HTTP server vs the model; a model-independent oracle that re-assembles the request "
+          "from path variables, JSON body and query string under the input descriptors."),
+    technique="Lean 4 theorems over an executable model with an external-transcoder specification + differential T2/T3 + re-assembly oracle on the emitted REST transport",
+    design="7.4",
+    note=("Relative to the stated specification of path_template.transcode (validated differentially, not proved about api-core) and to protobuf's "
+          "JSON codec (not modelled: the harness supplies scalar texts). URL-encoding by requests/api-core, REST streaming and LRO are not covered. "
+          "The agreement of the two template readings (path_params regex vs _VARIABLE_RE) is a hypothesis of agree_primary, discharged per instance."),
+)
